@@ -2,7 +2,9 @@
 (* One "job" per behaviour: an output value whose text form is written and read back.      *)
 EXTENDS OutputOps, TLC, Json
 CONSTANTS Texts, Insts
-TextsDef == {<<>>, <<"t">>, <<"a", ",", "b">>, <<"a", "E">>, <<",">>}
+\* "Q" is a double quote and "B" a backslash: they must be escaped by the writer and come back
+\* unchanged through the tokenizer
+TextsDef == {<<>>, <<"t">>, <<"a", ",", "b">>, <<"a", "E">>, <<",">>, <<"Q">>, <<"B", "t">>}
 InstsDef == {NoInst, <<"n">>, <<>>, <<"n", ";">>}
 VARIABLES o, phase
 vars == <<o, phase>>
